@@ -68,6 +68,7 @@ type Ctl struct {
 	Counters map[string]int
 	aborting int32
 	Steps    int
+	Reported int // number of reports received from managed goroutines so far
 	// limbo: number of goroutines blocked on a non-durable primitive (sync.Once
 	// mutex); while >0 the controller must not call synctest.Wait or sleep.
 	limbo int
@@ -164,6 +165,7 @@ func (c *Ctl) drain() int {
 		select {
 		case r := <-c.reports:
 			n++
+			c.Reported++
 			switch {
 			case r.park != nil:
 				p := r.park
@@ -235,6 +237,16 @@ func (c *Ctl) Advance(d time.Duration) {
 	c.LogCtl("advance", "", d.String())
 	time.Sleep(d)
 	c.Quiesce()
+}
+
+// Sleep moves the simulated clock without observing: the next Quiesce (same batch as whatever
+// follows) collects what happened meanwhile.
+func (c *Ctl) Sleep(d time.Duration) {
+	if c.limbo > 0 {
+		panic("verifsim: Sleep during limbo")
+	}
+	c.LogCtl("advance", "", d.String())
+	time.Sleep(d)
 }
 
 // Release lets exactly one parked goroutine continue with the given action.
@@ -316,7 +328,9 @@ func (c *Ctl) CanonicalLog() []string {
 		var grp []string
 		for j < len(c.Events) && c.Events[j].Batch == c.Events[i].Batch {
 			e := c.Events[j]
-			if e.Kind != "advance" && !strings.HasPrefix(e.Kind, "nc:") {
+			// excluded: clock steps, and everything about context `down` commands (Finish walks a
+			// sync.Map, so the order in which contexts are taken down is runtime-chosen)
+			if e.Kind != "advance" && !strings.HasPrefix(e.Kind, "nc:") && !strings.Contains(e.Subject, "/down/") {
 				grp = append(grp, e.Kind+" "+e.Subject+" "+e.Detail)
 			}
 			j++
